@@ -96,6 +96,9 @@ def gen_case(r):
         elif k < 0.25:
             fmt = ['emph']
         quoted = r.random() < 0.08 and not levels[-1][1].startswith('MATH:')
+        if quoted:
+            # which special character is quoted: "! (a literal !), "" (a literal "), or "" directly before a real separator
+            quoted = r.choice(['!q', '!q', '"q', '"'])
         entries.append({'levels': levels, 'fmt': fmt, 'quoted': quoted})
     return entries
 
@@ -107,10 +110,11 @@ def print_entry(e):
         if disp.startswith('MATH:'):
             d = '$\\%s$' % disp[5:]
         if e['quoted'] and i == len(e['levels']) - 1:
-            # a quoted special character inside the key: "! is a literal !
-            d = d + '"!q'
+            # a quoted special character inside the key: "! is a literal !, "" a literal "
+            q = ''.join('"' + ch if ch in '!"' else ch for ch in e['quoted'])
+            d = d + q
             if sort != disp:
-                parts.append(s + '"!q@' + d)
+                parts.append(s + q + '@' + d)
             else:
                 parts.append(d)
             continue
@@ -129,7 +133,7 @@ def entry_path(e):
     out = []
     for i, (sort, disp) in enumerate(e['levels']):
         if e['quoted'] and i == len(e['levels']) - 1:
-            out.append((sort + '!q', disp + '!q'))
+            out.append((sort + e['quoted'], disp + e['quoted']))
         else:
             out.append((sort, disp))
     return out
